@@ -75,7 +75,7 @@ static RegisterOp r_t7({TRSM[7], "C04", 0, nullptr, exec_trsm, true});
 static RegisterOp r_t8({TRSM[8], "C04", 0, nullptr, exec_trsm, true});
 static RegisterOp r_t9({TRSM[9], "C04", 0, nullptr, exec_trsm, true});
 
-static Case gen_C04(const GenCtx &ctx) { return gen_from_ops("C04", ctx, 0); }
+static Case gen_C04(const GenCtx &ctx) { return gen_from_ops("C04", ctx, 15); }
 static RegisterProp p_C04({"C04",
                            "random: variant (4 public + 4 underscore) x n (<= 64 word base case, table / trtri regime, > block size "
                            "recursion) x width of B (1, 53..55, 63..65, 127..129, mixture) x unit triangular T (identity, dense, sparse, "
@@ -191,7 +191,7 @@ static RegisterOp r_i1({"mzd_invert_naive", "C05", 0, nullptr, exec_inv, true});
 static RegisterOp r_i2({"mzd_trtri_upper", "C05", 0, nullptr, exec_inv, true});
 static RegisterOp r_i3({"mzd_trtri_upper_russian", "C05", 0, nullptr, exec_inv, true});
 
-static Case gen_C05(const GenCtx &ctx) { return gen_from_ops("C05", ctx, 0); }
+static Case gen_C05(const GenCtx &ctx) { return gen_from_ops("C05", ctx, 15); }
 static RegisterProp p_C05({"C05",
                            "random: invertible A constructed as Pi*L*U in the model (generated LAPACK permutation, unit triangular "
                            "factors of generated density) - complete for invertible matrices, no rejection - x n (around multiples of 64) "
